@@ -55,7 +55,14 @@ def _rr_hr(self, tokens, idx, options, env):
     return "<hr class=x>\n"
 
 
-RENDER_RULES = {"text": _rr_upper, "strong_open": _rr_strong, "hr": _rr_hr}
+def _rr_refs(self, tokens, idx, options, env):
+    # a render rule that reads env (the built-in rules never do): what the renderer is handed must be the env of the parse
+    if tokens[idx].hidden:
+        return ""
+    return '<p data-refs="%s">' % ",".join(sorted(env.get("references", {})))
+
+
+RENDER_RULES = {"text": _rr_upper, "strong_open": _rr_strong, "hr": _rr_hr, "paragraph_open": _rr_refs}
 
 
 def budget(tier: str) -> dict:
